@@ -7,11 +7,7 @@
 #define FCPPT_MATH_CEIL_DIV_SIGNED_HPP_INCLUDED
 
 #include <fcppt/literal.hpp>
-#include <fcppt/cast/to_signed.hpp>
-#include <fcppt/cast/to_unsigned.hpp>
-#include <fcppt/math/ceil_div.hpp>
 #include <fcppt/optional/make_if.hpp>
-#include <fcppt/optional/map.hpp>
 #include <fcppt/optional/object_impl.hpp>
 #include <fcppt/config/external_begin.hpp>
 #include <type_traits>
@@ -26,8 +22,9 @@ namespace math
 
 \ingroup fcpptmath
 
-The same as #fcppt::math::ceil_div, except in case where dividend
-is negative, dividend / divisor is returned.
+The same as #fcppt::math::ceil_div but for signed types: In case divisor is 0,
+nothing is returned. Otherwise, returns the least integer that is not less
+than the exact quotient, for dividends and divisors of either sign.
 
 \tparam T A signed type
 */
@@ -38,15 +35,15 @@ fcppt::optional::object<T> ceil_div_signed(T const &_dividend, T const &_divisor
 
   T const zero{fcppt::literal<T>(0)};
 
-  return (_dividend < zero)
-             ? fcppt::optional::make_if(
-                   _divisor != zero, [_dividend, _divisor] { return _dividend / _divisor; })
-             : fcppt::optional::map(
-                   fcppt::math::ceil_div(
-                       fcppt::cast::to_unsigned(_dividend), fcppt::cast::to_unsigned(_divisor)),
-                   [](std::make_unsigned_t<T> const _result) {
-                     return fcppt::cast::to_signed(_result);
-                   });
+  return fcppt::optional::make_if(_divisor != zero, [_dividend, _divisor, zero] {
+    T const quotient{_dividend / _divisor};
+
+    // The quotient is truncated towards zero, which only differs from the ceiling
+    // if the exact result is positive and not an integer.
+    return (_dividend % _divisor != zero && (_dividend < zero) == (_divisor < zero))
+               ? quotient + fcppt::literal<T>(1)
+               : quotient;
+  });
 }
 
 }
